@@ -425,6 +425,14 @@ func (e *Engine) vrtIntrinsic(fn *ssa.Function, vn string, args []Value, st *Sta
 		st.assumes = And(st.assumes, Not(Eq(p, StrC(""))), sEach(p, func(c *Term) *Term { return byteRange(c, 33, 126) }))
 		e.cfgFile = &cfgFileEnv{Path: p, ReadErr: args[0].(*Term), YamlErr: args[1].(*Term), Empty: args[2].(*Term), Typ: args[3].(*Term)}
 		return p, true
+	case "ConfigFileS":
+		// like ConfigFile, and the file also holds a `suffixes` map of up to two entries (an entry with an
+		// empty key is absent)
+		p := e.freshStr(st, "cfgpath", 6)
+		st.assumes = And(st.assumes, Not(Eq(p, StrC(""))), sEach(p, func(c *Term) *Term { return byteRange(c, 33, 126) }))
+		e.cfgFile = &cfgFileEnv{Path: p, ReadErr: args[0].(*Term), YamlErr: args[1].(*Term), Empty: args[2].(*Term), Typ: args[3].(*Term),
+			Suf: [][2]*Term{{args[4].(*Term), args[5].(*Term)}, {args[6].(*Term), args[7].(*Term)}}}
+		return p, true
 	case "Generator":
 		// vrtGenerator() *generator.Generator: an opaque non-nil generator over the fixed universe
 		pt := fn.Signature.Results().At(0).Type().Underlying().(*types.Pointer).Elem()
@@ -528,6 +536,7 @@ type cfgFileEnv struct {
 	ReadErr, YamlErr *Term
 	Empty            *Term // the file says `types: []`: an allocated map without entries
 	Typ              *Term
+	Suf              [][2]*Term // `suffixes` entries (key, value); empty key = absent
 }
 
 
